@@ -44,10 +44,7 @@ Theorem C05_sort_algorithm_irrelevant :
     (StronglySorted (fun a c => tpl_before a c = true) s -> s = sort_templates keys) /\
     (StronglySorted (fun a c => notes_before a c = true) s -> s = sort_notes_keys keys) /\
     (StronglySorted (fun a c => str_ltb a c = true) s -> s = sort_strings keys).
-Proof.
-  exact (fun keys s Hnd Hp => conj (sort_templates_any_algorithm keys s Hnd Hp)
-         (conj (sort_notes_any_algorithm keys s Hnd Hp) (sort_strings_any_algorithm keys s Hnd Hp))).
-Qed.
+Proof. exact sort_algorithm_irrelevant. Qed.
 Print Assumptions C05_sort_algorithm_irrelevant.
 
 (* F7 (repaired by 43ed85f): the code that collected the notes while ranging over the map *)
@@ -70,7 +67,7 @@ Theorem C05_funcmap_hermetic :
   (forall f, In f ["env"; "expandenv"] -> ~ In f func_names) /\
   (forall f, In f ["include"; "tpl"; "required"; "fail"; "lookup"; "getHostByName"; "toYaml"; "fromYaml"; "toJson"] -> In f func_names) /\
   NoDup func_names /\ Nat.leb 100 (List.length func_names) = true.
-Proof. exact (conj funcmap_hermetic (conj funcmap_overrides_present (conj funcmap_nodup funcmap_nonempty))). Qed.
+Proof. exact funcmap_hermetic_all. Qed.
 Print Assumptions C05_funcmap_hermetic.
 
 (* .Files is a function of the chart's in-memory file map alone, whatever order that map is
